@@ -223,10 +223,10 @@ def run(chk):
     jobs = [(m, d, w) for m in MODES for d in dt_grid for w in ('conservation', 'boundary')]
     jobs += [(m, d, 'overflow') for m in MODES for d in (('float64',) * 4, ('float32',) * 4)]
     jobs += [(m, d, 'f32range') for m in MODES for d in dt_grid if 'float32' in d]
-    jobs += [(m, ('float64',) * 4, w, 'graph') for m in MODES for w in ('conservation', 'boundary')]
+    jobs += [(m, d, w, 'graph') for m in MODES for d in (dt_grid if chk.tier == 'thorough' else [('float64',) * 4]) for w in ('conservation', 'boundary')]
     run_jobs(chk, job, jobs)
     from . import shimval
-    shimval.validate(chk, 'inelastic', 40 if chk.tier == 'quick' else 240)
+    shimval.validate(chk, 'inelastic', 40 if chk.tier == 'quick' else 1000)
     run_jobs(chk, job_canary, [0])
     chk.bounds = {'shapes': 'scalar operands (kernels are element-wise)', 'dtypes': 'float64/float32 per operand',
                   'units': 'symbolic positive scale factor per operand (covers all units of the right dimension)',
